@@ -164,7 +164,13 @@ def reruns(job):
                 # ---- convergence with the clean twin (default rerun of plain action / item failures only)
                 # (a default rerun leaves tasks the provider canceled as they are: the workflow then legitimately ends
                 # canceled, there is no clean twin for that; the twin applies when they are named in the request)
-                if (label == "with_canceled" or (label == "default" and not canceled)) and st == "failed" and led is not None and led.enabled and not led.fail_cmds \
+                # (... and only if no task that ended failed / canceled had a satisfied transition in its first pass - e.g.
+                # `when not succeeded()` on a task the provider canceled: what that transition staged or published is work
+                # still due and legitimately runs after the rerun, the twin in which the task succeeds at once never has it)
+                abended_with_next = [r["id"] for r in seqrecs if r.get("status") in ("failed", "canceled", "timeout", "abandoned")
+                                     and any((r.get("next") or {}).values())]
+                if (label == "with_canceled" or (label == "default" and not canceled)) and not (canceled and abended_with_next) \
+                        and st == "failed" and led is not None and led.enabled and not led.fail_cmds \
                         and led.unhandled and not run.tags & {"late_arrival_int_join"} \
                         and all(not x.handled for x in led.execs if x.status == "failed"):
                     clean = explore.make_run(case, [workloads.ledger.Ledger()], model=m, label="clean-twin")
